@@ -131,11 +131,3 @@ Proof.
     + intros H. inversion H as [|a b Hn Hd]; subst. split; [|exact Hd].
       destruct (existsb (name_eqb x) l) eqn:E; [|reflexivity]. apply existsb_name_in in E. contradiction.
 Qed.
-
-Lemma hosts_accepted_iff_proof c :
-  valid_hosts c = true <-> (c_main c <> [] /\ NoDup (main_names c ++ c_ping c ++ c_speed c ++ c_rp c)).
-Proof.
-  unfold valid_hosts, all_names. rewrite andb_true_iff, negb_true_iff, nodupb_NoDup. split.
-  - intros [H1 H2]. split; [destruct (c_main c); [discriminate|discriminate]|exact H2].
-  - intros [H1 H2]. split; [destruct (c_main c); [contradiction|reflexivity]|exact H2].
-Qed.
